@@ -131,3 +131,56 @@ C("C04", "TestC04", P(3000), P(8000, 16, 2400), pkg="conc", flavour="inst",
   level_note="Trusts the instrumenter (syntactic redirect of os/ioutil/time calls), the shim and POSIX semantics of the real filesystem; " + SCHED,
   assumptions=["no I/O faults", SCHED, "transactions are legal (conflict-free names) so content rejection does not occur"],
   exhaustive_part="thorough tier: single pre-emption of every ordered pair of operation kinds at every filesystem call, double pre-emption of (CompactAll, Add, Add)")
+
+C("C05", "TestC05", P(2500), P(8000, 16, 2400), pkg="conc", flavour="inst",
+  rule="engine of C04 with 1..4 processes, optionally 1..2 processes killed in front of a drawn filesystem call, and (1/4 of the cases) File.Write as an additional yield point; "
+       "oracle M5 after EVERY filesystem step: each name in tables.list exists, decodes as a complete well-formed table of the stack's hash id (specdec: header==footer, CRC, all sections), limits strictly increasing; "
+       "a pass-through NewStack probe every 7 steps and at the end must succeed and read; "
+       "non-trivial = the list changed at least twice while another process was mid-operation, or a process was killed after a rename of its operation; distinct = hash of the case JSON",
+  technique="property-based testing over schedules and crash points: invariant checked after every filesystem operation under a deterministic scheduler",
+  level_text="Generated interleavings and crash points; referential integrity of tables.list is evaluated at every intermediate instant, which no sequential test can reach. " + BOUNDED,
+  level_note="Process crashes only (no power loss: the code does not fsync); " + SCHED,
+  assumptions=["no I/O faults other than process kills", SCHED],
+  exhaustive_part="thorough tier: the C04 pre-emption enumerations re-run with the M5 monitor")
+
+C("C08", "TestC08", P(3000), P(8000, 16, 2400), pkg="conc", flavour="inst",
+  rule="engine of C04 with 2..4 processes running contention-heavy programs (Add with auto-compaction, CompactAll, AutoCompact, Clean, abandoned Additions) on a stack that always has >=3 tables; "
+       "oracle M8 at every create/remove/rename of a *.lock path: a lock is created only while nobody owns it; a successful remove or rename of a lock file is performed by the process that created it; "
+       "non-trivial = some lock acquisition failed with EEXIST in the case; distinct = hash of the case JSON",
+  technique="property-based testing over schedules: lock-ownership monitor on the filesystem-call trace of a deterministic scheduler",
+  level_text="Generated contention schedules; ownership is tracked from the trace of real O_EXCL creates, removes and renames. " + BOUNDED,
+  level_note=SCHED,
+  assumptions=["no crashes (a dead owner's lock stays, by design)", SCHED],
+  exhaustive_part="thorough tier: the C04 pre-emption enumerations re-run with the M8 monitor")
+
+C("C10", "TestC10", P(3000), P(8000, 16, 2400), pkg="conc", flavour="inst",
+  rule="engine of C04 with a reading/reloading process (Open, Read, Add, AutoCompact) and 1..3 writers (Add, CompactAll, AutoCompact, multi-table Addition, expiry); windowed schedules biased to pre-empt the reader inside its open/reload; "
+       "oracle M10 after every completed call of every handle: a full scan through Merged() succeeds, Stack.String() names exactly one version of tables.list, the scan equals that version's state decoded from disk by specdec, and the version never decreases; "
+       "non-trivial = a table named in a process's last read of the list was unlinked by another process, or a handle read after tables it holds were deleted; distinct = hash of the case JSON",
+  technique="property-based testing over schedules: snapshot-consistency monitor against the history of list versions decoded independently",
+  level_text="Generated interleavings of reload against compaction; every handle must always show exactly one committed version. " + BOUNDED,
+  level_note=SCHED,
+  assumptions=["no I/O faults", SCHED],
+  exhaustive_part="thorough tier: the C04 pre-emption enumerations (incl. Open vs. CompactAll / Add-with-auto-compaction) re-run with the M10 monitor")
+
+C("C16", "TestC16", P(3000), P(8000, 16, 2400), pkg="conc", flavour="inst",
+  rule="engine of C04 with 1..4 processes whose programs include deliberately failing operations (Add with an invalid ref name, Add with limits below the next update index, abandoned Additions, Adds through stale handles, compactions that lose lock races, Close/Clean on empty stacks); "
+       "second family (1/3 of the multi-process cases): process 0 is killed at a drawn filesystem call and a survivor ends with Clean and Close (M5 keeps running: no listed table may disappear; Clean may only fail with ErrLockFailure; no panic); "
+       "oracle M16: when a call returns, no lock or temporary file created by that handle exists; when all processes are done and none was killed the directory is exactly tables.list + the tables it names; "
+       "non-trivial = a case with a failed operation or a lost lock race; distinct = hash of the case JSON",
+  technique="property-based testing over schedules and failure paths: creator-tracking monitor on the filesystem-call trace, directory audit at every idle point",
+  level_text="Generated interleavings including the failure paths that leak; the audit runs at every operation return and at global quiescence. " + BOUNDED,
+  level_note=SCHED,
+  assumptions=["no I/O faults other than process kills", SCHED],
+  exhaustive_part="thorough tier: the C04 pre-emption enumerations re-run with the M16 monitor")
+
+C("C06", "TestC06", P(120), P(600, 16, 2400), pkg="conc", flavour="inst", level="fault_enumeration",
+  rule="rapid-generated (initial stack of 0..6 transactions incl. tombstones and logs, one target operation from {Add, multi-table Addition, abandoned Addition, CompactAll, CompactAll with expiry, AutoCompact, Clean, Close}, auto-compaction on/off, optionally a surviving second process with 1..3 operations); "
+       "the operation is first run uncrashed to count its n filesystem calls and to obtain the states before/after (decoded from disk by specdec); then for EVERY k in 0..n-1 the identical initial state is rebuilt and the process is killed in front of call k; "
+       "oracle: the committed state at the kill is exactly before or exactly after; a fresh NewStack opens and reads it (M5 after every step, M4 for every later transition, M10 for the survivor); survivor writes fail only with ErrLockFailure; "
+       "evaluations = (case, crash point) executions; non-trivial = crash point after the first rename of the run; distinct = (case hash, k)",
+  technique="fault enumeration: exhaustive crash-point injection per generated operation (deterministic scheduler kill before each filesystem call) with a before/after state oracle",
+  level_text="All crash points of each generated operation are enumerated (exhaustive for that operation); operations and initial stacks are generated. " + BOUNDED,
+  level_note="Process kill = no further filesystem call and no further write through open files; descriptors are closed. Power loss is outside (no fsync in the code). " + SCHED,
+  assumptions=["crash = process kill at a filesystem-call boundary", SCHED],
+  exhaustive_part="all crash points (filesystem-call boundaries) of every generated target operation")
